@@ -47,7 +47,7 @@
                               prefix of want while none has
      2 :: 96/97 :: []         as in C03j (Spec inflate rejects / generator error)
      [0]                      agree
-   The model is compared first, then the Spec clause.  Worked example at the end of the file. *)
+   The Spec clause is evaluated first, then the model is compared.  Worked example at the end of the file. *)
 Require Import WS.Base.Bytes WS.Base.Tape WS.Spec.Frame WS.Spec.Conformance WS.Spec.Inflate.
 Require Import WS.Model.Bufio WS.Model.Reader WS.Model.Join WS.Cases.ReaderCase.
 
@@ -95,7 +95,10 @@ Definition spec (q:kcase) (obs:list jout) : option (N * tape) :=
           else
             let want := flat_map (fun m => e_data m ++ q_term q) ms in
             let d := flat_map fst obs in
-            if (if has_error obs then beq d want else is_prefix d want) then None
+            (* everything must have arrived once an error was returned when the transport ends with
+               EOF; a timeout or other failure delivered together with the last bytes of a message
+               legitimately ends the joined stream before that message's terminator *)
+            if (if has_error obs && errk_eqb (fault (k_script k)) EEOF then beq d want else is_prefix d want) then None
             else Some (181, [blen d; blen want])
       end
   | _ => None                                               (* incomplete stream: outside the clause *)
@@ -112,10 +115,10 @@ Definition judge (t:tape) : tape :=
       let '(mo, st) := model q in
       if outoffuel (jconn st) then v_specfail 98 []
       else if jood st then v_badtape
-      else match first_diff 0 obs mo with
-           | Some i => v_mismatch (i :: e_jobs mo)
-           | None => match spec q obs with
-                     | Some (cl, d) => v_specfail cl d
+      else match spec q obs with
+           | Some (cl, d) => v_specfail cl d
+           | None => match first_diff 0 obs mo with
+                     | Some i => v_mismatch (i :: e_jobs mo)
                      | None => v_agree
                      end
            end
